@@ -4,6 +4,7 @@
 
 #include <etl/_config/all.hpp>
 
+#include <etl/_cmath/rint.hpp>
 #include <etl/_concepts/integral.hpp>
 #include <etl/_type_traits/is_constant_evaluated.hpp>
 #include <etl/_type_traits/is_same.hpp>
@@ -14,7 +15,7 @@ namespace detail {
 template <typename T, typename U>
 [[nodiscard]] constexpr auto lrint_fallback(U arg) noexcept -> T
 {
-    return static_cast<T>(arg);
+    return static_cast<T>(etl::detail::rint_fallback(arg));
 }
 
 template <typename T>
